@@ -88,12 +88,12 @@ theorem xfer_status_rx (r : Radio) (v : Nat) : (r.xfer [0x20 ||| 7, v]).1.rxFifo
   rfl
 
 /-- **`read()`** on a radio with an idle transmitter, dynamic payloads in the driver's shadow, RX
-    entries of at least one byte: returns `None`, or the data of the head entry, which is gone -/
-theorem read_spec (s : DrvState) (hw : s.Wf) (hq : TxS s) (hfe : s.d.features &&& 4 ≠ 0)
-    (hlen : ∀ e ∈ (s.w.radio s.d.rid).rxFifo, 1 ≤ e.data.length) :
+    entries of ANY length (a 0-byte head entry makes it return `None`): returns `None`, or the data of
+    the head entry — then not empty —, which is gone -/
+theorem read_spec (s : DrvState) (hw : s.Wf) (hq : TxS s) (hfe : s.d.features &&& 4 ≠ 0) :
     ∃ r s', exec (Rf24.read none) s = (.ok r, s') ∧
       (r = none ∨ ∃ e rest, (s.w.radio s.d.rid).rxFifo = e :: rest ∧ r = some e.data ∧
-        (s'.w.radio s.d.rid).rxFifo = rest) := by
+        (s'.w.radio s.d.rid).rxFifo = rest ∧ e.data ≠ []) := by
   -- first transaction: R_RX_PL_WID
   have c60 : SafeCmd [0x60, 0] := safeCmd_cmd _ _ (by decide)
   obtain ⟨r1, i1⟩ := spi_idle_eq s.w s.d.rid [0x60, 0] hw hq.1 c60
@@ -127,10 +127,12 @@ theorem read_spec (s : DrvState) (hw : s.Wf) (hq : TxS s) (hfe : s.d.features &&
       rw [hst1, status_empty _ hf] at hp
       omega
     | cons e rest =>
-      have hl := hlen e (by rw [hf]; exact List.mem_cons_self ..)
       simp only
-      have : ¬ e.data.length = 0 := by omega
-      rw [if_neg this]
+      by_cases hl0 : e.data.length = 0
+      · rw [if_pos hl0]
+        exact ⟨_, _, rfl, Or.inl rfl⟩
+      have hne : e.data ≠ [] := fun h => hl0 (by rw [h]; rfl)
+      rw [if_neg hl0]
       -- second transaction: R_RX_PAYLOAD
       have c61 : SafeCmd (0x61 :: zeros e.data.length) := safeCmd_cmd _ _ (by decide)
       obtain ⟨r2, i2⟩ := spi_idle_eq (s.spiStep [0x60, 0]).w s.d.rid _ hw1 q1.1 c61
@@ -143,7 +145,7 @@ theorem read_spec (s : DrvState) (hw : s.Wf) (hq : TxS s) (hfe : s.d.features &&
       have c27 : SafeCmd [0x20 ||| 7, 0x40] := safeCmd_status 0x40 (by decide)
       obtain ⟨r3, _⟩ := spi_idle_eq ((s.spiStep [0x60, 0]).spiStep (0x61 :: zeros e.data.length)).w s.d.rid _
         hw2 q2.1 c27
-      refine ⟨_, _, rfl, Or.inr ⟨e, rest, rfl, ?_, ?_⟩⟩
+      refine ⟨_, _, rfl, Or.inr ⟨e, rest, rfl, ?_, ?_, hne⟩⟩
       · congr 1
         show ((s.spiStep [0x60, 0]).w.spi s.d.rid (0x61 :: zeros e.data.length)).2.drop 1 = e.data
         rw [i2]; exact x2
